@@ -7,6 +7,8 @@
 //     (1 = bounded container overflow, 2 = clipped integer clamped a value) that fired WHILE the clause was computed:
 //     on an ACCEPTED result they are appended as `!ev<kind>:<count>` so that the answer differs from the reference
 //   * array normalisation `shape=<list> data=<row-major elements>`
+//   * `tag<T>()`: which container the library chose for a shape result (constant / clipped with bounds / fixed /
+//     bounded / dynamic); request `k6t` answers the shape clauses as `value@container`
 // Requires -DPROTO_VERIF_EVENTS (proto.hpp then defines the event counters).
 #pragma once
 #include "nmtools/meta.hpp"
@@ -53,6 +55,28 @@ template <typename T> inline std::string items(const T& r) {
     }
     if (first) return "[]";
     return o;
+}
+
+// the container the library chose for a shape-like result, as far as meta::resolve_optype<broadcast_shape_t> cares:
+//   ct | cl(b0,b1,..) tuple of clipped | ca(b,b,..) array of clipped | a<N> fixed length | sv<cap> bounded | v | none
+// (compared with the Lean model of the resolver, NmVerif.resolveBroadcast)
+template <typename T> inline std::string tag() {
+    if constexpr (is_failed_v<T> || meta::is_fail_v<T>) return "err";
+    else if constexpr (meta::is_maybe_v<T>) return tag<meta::remove_cvref_t<meta::get_maybe_type_t<T>>>();
+    else if constexpr (nm::is_none_v<T>) return "none";
+    else if constexpr (meta::is_constant_index_array_v<T>) return "ct";
+    else if constexpr (meta::is_clipped_index_array_v<T>) {
+        constexpr auto bounds = meta::to_value_v<T>;
+        std::string o = meta::is_tuple_v<T> ? "cl(" : "ca(";
+        for (size_t i=0;i<(size_t)nm::len(bounds);i++) { if (i) o += ","; o += std::to_string((long long)nm::at(bounds,i)); }
+        return o + ")";
+    }
+    else if constexpr ((meta::len_v<T>) > 0) return "a" + std::to_string((long long)meta::len_v<T>);
+    else {
+        constexpr auto bs = meta::bounded_size_v<T>;
+        if constexpr (meta::is_fail_v<decltype(bs)>) return "v";
+        else return "sv" + std::to_string((long long)bs);
+    }
 }
 
 // accepted?  (a maybe with a value, or a plain value)
@@ -147,23 +171,29 @@ template <typename A, typename B, typename C> inline auto bc(const A& a, const B
 inline long long ev(int k) { return proto::g_events[k]; }
 
 struct out_t {
-    std::string s = "ok";
+    std::string s = "ok";      // the clauses, values only            (request `k6`)
+    std::string t = "ok";      // shape clauses as value@container    (request `k6t`: against the Lean model of the resolver)
     // one clause: value printed by `print`, hook events on an accepted value are part of the answer
-    template <typename F, typename P> void term(const char* name, F f, P print) {
+    template <typename F, typename P> void term(const char* name, F f, P print, bool tagged = false) {
         long long e1 = ev(1), e2 = ev(2);
         auto r = f();
         std::string txt = print(r);      // reading the elements of a view is part of the clause
         long long d1 = ev(1) - e1, d2 = ev(2) - e2;
-        s += " "; s += name; s += "="; s += txt;
+        std::string e;
         if (accepted(r)) {
-            if (d1) s += "!ev1:" + std::to_string(d1);
-            if (d2) s += "!ev2:" + std::to_string(d2);
+            if (d1) e += "!ev1:" + std::to_string(d1);
+            if (d2) e += "!ev2:" + std::to_string(d2);
         }
+        s += " "; s += name; s += "="; s += txt; s += e;
+        if (tagged) { t += " "; t += name; t += "="; t += txt; t += "@" + tag<meta::remove_cvref_t<decltype(r)>>(); t += e; }
     }
-    void lit(const char* name, const char* value) { s += " "; s += name; s += "="; s += value; }
-    std::string done() { for (auto& e : proto::g_events) e = 0; return s; }
+    void lit(const char* name, const char* value) {
+        s += " "; s += name; s += "="; s += value;
+        t += " "; t += name; t += "="; t += value;
+    }
+    std::string done(bool tags) { for (auto& e : proto::g_events) e = 0; return tags ? t : s; }
 };
-#define K6_SHP(o, name, expr) (o).term(name, [&]{ return (expr); }, [](const auto& r){ return k6::shp(r); })
+#define K6_SHP(o, name, expr) (o).term(name, [&]{ return (expr); }, [](const auto& r){ return k6::shp(r); }, true)
 #define K6_SBT(o, name, expr) (o).term(name, [&]{ return (expr); }, [](const auto& r){ return k6::sbt(r); })
 #define K6_ARR(o, name, expr) (o).term(name, [&]{ return (expr); }, [](const auto& r){ return k6::arr(r); })
 #define K6_ARRS(o, name, expr) (o).term(name, [&]{ return (expr); }, [](const auto& r){ return k6::arrs(r); })
